@@ -130,8 +130,12 @@ const STUB_DRV: &str = "pub fn __vrf_dispatch(_r: usize, _o: &str, _a: &::serde_
 
 /// Prefix of every drv.rs (glob imports as promised by DESIGN §3.1(4)).
 pub fn drv_prelude(type_mod: &Option<String>) -> String {
-    let tm = type_mod.clone().unwrap_or_else(|| "g".to_string());
-    format!("use super::*;\nuse super::{tm}::*;\n")
+    // with a configured module, reported identifiers are module-qualified and must resolve
+    // from *outside* that module: no glob import then
+    match type_mod {
+        Some(_) => "use super::*;\n".to_string(),
+        None => "use super::*;\nuse super::g::*;\n".to_string(),
+    }
 }
 
 /// Ensure the warmed dependency target dir exists (built once by setup).
